@@ -9,6 +9,7 @@ import (
 	"github.com/lugu/qiloop/bus/directory"
 	"github.com/lugu/qiloop/bus/services"
 	"github.com/lugu/qiloop/bus/session"
+	"github.com/lugu/qiloop/type/object"
 
 	"verif/rt/vnet"
 	"verif/rt/vrt"
@@ -20,6 +21,7 @@ import (
 type world struct {
 	impl *probe.Impl
 	sess bus.Session
+	ref  object.ObjectReference // reference to the Probe service object
 }
 
 // start: a directory on tcp://sd, a second server on tcp://b hosting the
@@ -54,6 +56,18 @@ func start(twoHosts bool) *world {
 	}
 	w.sess = s
 	vrt.Quiesce()
+	// an object reference to the probe service, as a method returning an
+	// object would deliver it (obtained through a separate session)
+	s2, err := session.NewSession("tcp://sd")
+	if err != nil {
+		panic(err)
+	}
+	px, err := s2.Proxy("Probe", 1)
+	if err != nil {
+		panic(fmt.Sprintf("reference proxy: %v", err))
+	}
+	w.ref = bus.ObjectReference(px)
+	vrt.Quiesce()
 	return w
 }
 
@@ -84,7 +98,14 @@ func body(services_ []string, fine bool) func() {
 			arg := int32(10 + i)
 			ws = append(ws, vrt.GoWorker(r.name, func() {
 				defer func() { r.done = true }()
-				p, err := w.sess.Proxy(r.service, 1)
+				var p bus.Proxy
+				var err error
+				if r.service == "Probe-by-reference" {
+					// Session.Object: a proxy from an object reference
+					p, err = w.sess.Object(w.ref)
+				} else {
+					p, err = w.sess.Proxy(r.service, 1)
+				}
 				if err != nil {
 					r.err = err
 					return
@@ -119,10 +140,13 @@ func body(services_ []string, fine bool) func() {
 			// the hosting sessions hold their own connections to the directory
 			extra := 0
 			if addr == "tcp://sd" {
-				extra = 1
+				extra = 2 // the hosting session and the reference session
 				if twoHosts {
-					extra = 2
+					extra = 3
 				}
+			}
+			if addr == "tcp://b" {
+				extra = 1 // the reference session's own connection
 			}
 			if n := vnet.OpenClientConns(addr) - extra; n > 1 {
 				vrt.Failf("duplicate-connection/"+addr, "the session holds %d open connections to %s", n, addr)
@@ -138,7 +162,7 @@ func body(services_ []string, fine bool) func() {
 		} else if v, err := probe.MakeProbe(w.sess, p).Echo(99); err != nil || v != probe.EchoResult(99) {
 			vrt.Failf("session-broken", "echo through a later proxy fails: %v", err)
 		}
-		if n := vnet.OpenClientConns("tcp://b"); n > 1 {
+		if n := vnet.OpenClientConns("tcp://b") - 1; n > 1 {
 			vrt.Failf("duplicate-connection/tcp://b", "the session holds %d open connections to tcp://b after a later request", n)
 		}
 		fx.Settle()
@@ -151,6 +175,8 @@ func init() {
 		Doc: "two goroutines request a proxy to the same not-yet-connected service and call it", MustFlag: []string{"dialled-twice:tcp://b"}})
 	reg.Register(&reg.Scenario{Property: "C19", Name: "two-shared-connection", Body: body([]string{"ServiceDirectory", "ServiceDirectory"}, false), Quick: 2, Thorough: 3,
 		Doc: "two goroutines request a proxy over the session's existing directory connection and call it (shared client)"})
+	reg.Register(&reg.Scenario{Property: "C19", Name: "proxy-and-object-reference", Body: body([]string{"Probe", "Probe-by-reference"}, false), Quick: 1, Thorough: 2,
+		Doc: "one goroutine requests Proxy(Probe), another Object(reference to Probe): same not-yet-connected endpoint", MustFlag: []string{"dialled-twice:tcp://b"}})
 	reg.Register(&reg.Scenario{Property: "C19", Name: "three-mixed", Body: body([]string{"Probe", "ServiceDirectory", "Other"}, false), Quick: 1, Thorough: 2,
 		Doc: "three goroutines: a new endpoint, the directory's existing connection, another new endpoint"})
 	reg.Register(&reg.Scenario{Property: "C19", Name: "two-same-endpoint-statement-level", Body: body([]string{"Probe", "Probe"}, true), Quick: 1, Thorough: 2,
